@@ -318,6 +318,12 @@ def run_instance(inst):
         kw = build_kwargs(inst, G)
     cls = getattr(fp, inst["cls"])
     model = None
+    _restore_scan = None
+    if "scan_size" in inst and hasattr(fp.MinFlowDecomp, "subgraph_lowerbound_size"):
+        # the window of the subgraph-scanning lower bound is a public class attribute (default 20): small values make the
+        # scan real on small graphs
+        _restore_scan = fp.MinFlowDecomp.subgraph_lowerbound_size
+        fp.MinFlowDecomp.subgraph_lowerbound_size = int(inst["scan_size"])
     out.update({"ctor_exc": "none", "ctor_msg": "", "solve_ret": NONE, "solve_exc": "none", "solved": False,
                 "sol_exc": "none", "routes": [], "weights": [], "wtypes": [], "slacks": [], "stypes": [],
                 "sslacks": [], "errs": [], "obj": NONE, "obj_type": "none", "obj_exc": "none", "valid": NONE,
@@ -443,6 +449,8 @@ def run_instance(inst):
                 out["aug_nodes"] = sorted(rename(list(g.nodes()), syn))
                 te = getattr(model, "trusted_edges_for_safety", None)
                 out["trusted"] = sorted(rename([list(e) for e in (te or [])], syn))
+    if _restore_scan is not None:
+        fp.MinFlowDecomp.subgraph_lowerbound_size = _restore_scan
     out["trace"] = [list(t) for t in _trace]
     out["ninv"] = _ninv[0]
     out["timeout"] = False
